@@ -509,6 +509,9 @@ class Extractor {
     if (auto* BO = dyn_cast<BinaryOperator>(E)) {
       O["k"] = "b";
       O["op"] = BO->getOpcodeStr().str();
+      if (BO->isComparisonOp() && !BO->getLHS()->getType().isNull() &&
+          BO->getLHS()->getType()->isUnsignedIntegerOrEnumerationType())
+        O["unsigned"] = true;
       O["l"] = desc(F, BO->getLHS(), Depth + 1);
       O["r"] = desc(F, BO->getRHS(), Depth + 1);
       return std::move(O);
